@@ -2,7 +2,10 @@ use super::{ActorInputMessage, ExecutionKind, TargetActorHelper};
 use crate::domain::ServiceTarget;
 use crate::run_script;
 use anyhow::{Context, Result};
+#[cfg(not(zinoma_verif))]
 use async_process::Child;
+#[cfg(zinoma_verif)]
+use crate::verif::Child;
 use async_std::prelude::*;
 use futures::FutureExt;
 use std::process::Stdio;
@@ -103,6 +106,8 @@ impl ServiceTargetActor {
 
         let mut command =
             run_script::build_command(&self.target.run_script, &self.target.metadata.project_dir);
+        #[cfg(zinoma_verif)]
+        let mut command = crate::verif::Command::wrap(command, &self.target.metadata.id, crate::verif::ProcKind::Service);
         command.stdout(Stdio::inherit()).stderr(Stdio::inherit());
 
         let service_process = command
